@@ -102,6 +102,10 @@ def must_reject(lines):
             strays = [ops + ',', ', ' + ops, ops.replace(',', ',,', 1) if ',' in ops else ops + ', ,']
             for st in strays:
                 out.append((f'line {i}: stray comma in the operands ({st.strip()!r})', lines[:i] + [f'{m.group(1)}{m.group(2)} {st}'] + lines[i + 1:]))
+            # a character that belongs to no token after the operands: the statement has an operand no variant accepts
+            for junk in ('!', '?', '$', '@', '~', '`'):
+                for text in (ops + ' ' + junk, ops + junk):
+                    out.append((f'line {i}: stray character after the operands ({text.strip()!r})', lines[:i] + [f'{m.group(1)}{m.group(2)} {text}'] + lines[i + 1:]))
             # values just outside the signed-or-unsigned range of the field: 2^w, 2^w + 1, -2^(w-1) - 1, -(2^w - 1)
             bigs = {'ldi': ['a, 256', 'a, -129', 'a, -255'], 'n12': ['256', '-129', '257'], 'n4': ['16', '-9', '-15', '17'],
                     'ldm': ['[65536]', '[-32769]'], 'jmp': ['65536'],
@@ -157,7 +161,7 @@ def meta(tier):
         'rule': 'base programs (6, together using every line kind incl. includes, macros, zones, strings, conditionals) x every single '
                 'deviation: drop / duplicate / garble (5 characters) each token, drop / duplicate each line, insert a zero-length '
                 'directive at each position, and the four must-reject replacements (undefined label, unknown mnemonic, operands no '
-                'variant accepts, value just outside its field on either side), a directive with an unresolvable label inserted at each '
+                'variant accepts, a stray comma or a stray character after the operands, value just outside its field on either side), a directive with an unresolvable label inserted at each '
                 'position (also directives that emit nothing: .fill 0, x); expression-length family (N in 8,16,24,32,64 tokens in every expression position); long-word family (an operand, string or '
                 'bracket that is opened and never closed, followed by one word of 16..64 characters or many short ones, in 25 positions); '
                 'empty-image family (5 programs that assemble to no byte at all x configurations x output pre-seeded / absent: the image must exist afterwards); '
